@@ -129,6 +129,21 @@ func foreignEmptyFile(b []byte, fatType int) error {
 }
 
 func fsBytes(kind string, tree *treeSpec) ([]byte, error) {
+	if kind == "fat32y" {
+		// a FAT32 image whose FSInfo sector carries a free-cluster hint that cannot be right (more free clusters than the
+		// volume has): the hint is advisory, other tools leave such values behind; reading such a volume must not "repair" it
+		b, err := fsBytes("fat32", tree)
+		if err != nil {
+			return nil, err
+		}
+		bps := int(binary.LittleEndian.Uint16(b[11:13]))
+		for _, sec := range []int{1, int(binary.LittleEndian.Uint16(b[50:52])) + 1} {
+			if o := sec * bps; sec > 0 && o+492 <= len(b) && binary.LittleEndian.Uint32(b[o:o+4]) == 0x41615252 {
+				binary.LittleEndian.PutUint32(b[o+488:], 0x00FFFFF0)
+			}
+		}
+		return b, nil
+	}
 	if kind == "fat16x" || kind == "fat32x" {
 		t2 := &treeSpec{Dirs: tree.Dirs, Files: map[string][]byte{"EMPTY.TXT": nil}}
 		for k, v := range tree.Files {
@@ -649,7 +664,7 @@ func c11Targets(quick bool) []c11Target {
 		}
 	}
 	// FAT images holding an empty file the way other implementations store it (no cluster)
-	for _, k := range []string{"fat16x", "fat32x"} {
+	for _, k := range []string{"fat16x", "fat32x", "fat32y"} {
 		for _, m := range []string{"rw-memdev", "ro-memdev"} {
 			ts = append(ts, c11Target{k, "none", m})
 			if !quick {
